@@ -62,7 +62,7 @@ def discover(crate):
             "labels": sorted(set(LABEL_RE.findall(body))),
             "contract_target": target,
             "unwind": int(unwind.group(1)) if unwind else None,
-            "bounded": "BOUNDED" in attrs,
+            "bounded": (re.search(r"BOUNDED:?\s*([^\n]*)", attrs).group(1).strip() or True) if "BOUNDED" in attrs else False,
             "thorough_only": "THOROUGH" in attrs,
             "body": body,
             "stubs": re.findall(r"kani::stub(?:_verified)?\(([^)]*)\)", attrs),
